@@ -77,13 +77,23 @@ impl Poly {
         }
         h
     }
-    fn lib_real(&self) -> Polynomial<f64> {
+    /// `zero_tol`: the zero tolerance carried by the polynomial OBJECT (None: the default). It governs
+    /// the object's own arithmetic and has no bearing on a root finder, whose tolerance is an argument.
+    fn lib_real(&self, zero_tol: Option<f64>) -> Polynomial<f64> {
         let desc: Vec<f64> = self.coef.iter().rev().map(|c| c.re).collect();
-        Polynomial::from_slice(&desc)
+        let mut p = Polynomial::from_slice(&desc);
+        if let Some(t) = zero_tol {
+            p.set_tolerance(t).expect("harness: positive tolerance");
+        }
+        p
     }
-    fn lib_complex(&self) -> Polynomial<C> {
+    fn lib_complex(&self, zero_tol: Option<f64>) -> Polynomial<C> {
         let desc: Vec<C> = self.coef.iter().rev().copied().collect();
-        Polynomial::from_slice(&desc)
+        let mut p = Polynomial::from_slice(&desc);
+        if let Some(t) = zero_tol {
+            p.set_tolerance(t).expect("harness: positive tolerance");
+        }
+        p
     }
 }
 
@@ -268,12 +278,18 @@ fn newton_case(rng: &mut Rng, rep: &mut Report) {
     if expect_err && rho < 1e-3 {
         return;
     }
+    // a quarter of the polynomial objects carry a zero tolerance of their own, up to far above the
+    // leading coefficient (set_tolerance after construction: nothing is purged)
+    let zero_tol = if rng.chance(0.25) { Some(rng.log10(-6.0, 4.0)) } else { None };
+    if zero_tol.is_some() {
+        rep.count("polynomial_objects_with_their_own_zero_tolerance", 1);
+    }
     probe::begin(u64::MAX);
     let res: Guarded<Result<C, String>> = if real {
-        let lp = p.lib_real();
+        let lp = p.lib_real(zero_tol);
         probe::guard(|| newton_polynomial(start.re, &lp, tol, n_max).map(|x| C::new(x, 0.0)))
     } else {
-        let lp = p.lib_complex();
+        let lp = p.lib_complex(zero_tol);
         probe::guard(|| newton_polynomial(start, &lp, tol, n_max))
     };
     rep.eval();
@@ -285,7 +301,7 @@ fn newton_case(rng: &mut Rng, rep: &mut Report) {
         Guarded::Budget => "budget".into(),
         Guarded::Panic(m, l) => format!("panic '{}' at {}", m, l),
     };
-    let cj = || J::obj().set("routine", name).set("polynomial", p.to_json()).set("start_re", start.re).set("start_im", start.im).set("start_kind", start_kind).set("target_root_re", z.re).set("target_root_im", z.im).set("basin_radius", rho).set("tol", tol).set("n_max", n_max).set("result", result_str.as_str());
+    let cj = || J::obj().set("routine", name).set("polynomial", p.to_json()).set("polynomial_object_zero_tolerance", zero_tol.unwrap_or(1e-10)).set("start_re", start.re).set("start_im", start.im).set("start_kind", start_kind).set("target_root_re", z.re).set("target_root_im", z.im).set("basin_radius", rho).set("tol", tol).set("n_max", n_max).set("result", result_str.as_str());
     let h = p.hash(CaseHash::new("c08-np")).f(start.re).f(start.im).f(tol).u(n_max as u64);
     rep.count(&format!("{}/{}/{}", name, if real { "real" } else { "complex" }, start_kind), 1);
     match res {
@@ -369,12 +385,18 @@ fn muller_case(rng: &mut Rng, rep: &mut Report) {
         }
     }
     let class = if near { "near" } else { "wide" };
+    // a quarter of the polynomial objects carry a zero tolerance of their own, up to far above the
+    // leading coefficient (set_tolerance after construction: nothing is purged)
+    let zero_tol = if rng.chance(0.25) { Some(rng.log10(-6.0, 4.0)) } else { None };
+    if zero_tol.is_some() {
+        rep.count("polynomial_objects_with_their_own_zero_tolerance", 1);
+    }
     probe::begin(u64::MAX);
     let res: Guarded<Result<C, String>> = if real {
-        let lp = p.lib_real();
+        let lp = p.lib_real(zero_tol);
         probe::guard(|| muller_polynomial((pts[0].re, pts[1].re, pts[2].re), &lp, tol, n_max))
     } else {
-        let lp = p.lib_complex();
+        let lp = p.lib_complex(zero_tol);
         probe::guard(|| muller_polynomial((pts[0], pts[1], pts[2]), &lp, tol, n_max))
     };
     rep.eval();
@@ -385,7 +407,7 @@ fn muller_case(rng: &mut Rng, rep: &mut Report) {
         Guarded::Budget => "budget".into(),
         Guarded::Panic(m, l) => format!("panic '{}' at {}", m, l),
     };
-    let cj = || J::obj().set("routine", name).set("polynomial", p.to_json()).set("class", class).set("radius_around_root", rho).set("initial_re", J::fs(&pts.iter().map(|z| z.re).collect::<Vec<_>>())).set("initial_im", J::fs(&pts.iter().map(|z| z.im).collect::<Vec<_>>())).set("tol", tol).set("n_max", n_max).set("result", result_str.as_str());
+    let cj = || J::obj().set("routine", name).set("polynomial", p.to_json()).set("polynomial_object_zero_tolerance", zero_tol.unwrap_or(1e-10)).set("class", class).set("radius_around_root", rho).set("initial_re", J::fs(&pts.iter().map(|z| z.re).collect::<Vec<_>>())).set("initial_im", J::fs(&pts.iter().map(|z| z.im).collect::<Vec<_>>())).set("tol", tol).set("n_max", n_max).set("result", result_str.as_str());
     let mut h = p.hash(CaseHash::new("c08-mu")).f(tol);
     for z in &pts {
         h = h.f(z.re).f(z.im);
@@ -457,6 +479,7 @@ pub fn stages(ctx: &Ctx) -> Vec<Stage> {
 pub fn thresholds(ctx: &Ctx, rep: &Report) -> Vec<Threshold> {
     let q = |a: f64, b: f64| ctx.tier.pick(a, b);
     let mut t = vec![];
+    t.push(Threshold { what: "polynomial root finders called on objects that carry a zero tolerance of their own".into(), required: ctx.tier.pick(8_000.0, 160_000.0), observed: rep.counter("polynomial_objects_with_their_own_zero_tolerance") as f64 });
     t.push(Threshold { what: "newton_polynomial: clustered-root cases whose derivative at the target root is below the tolerance".into(), required: ctx.tier.pick(600.0, 12_000.0), observed: rep.counter("newton_polynomial/clustered_cases_with_derivative_at_root_below_tol") as f64 });
     for f in ["real", "complex"] {
         t.push(Threshold { what: format!("newton_polynomial {}: regular starts", f), required: q(4_000.0, 100_000.0), observed: rep.counter(&format!("newton_polynomial/{}/regular", f)) as f64 });
